@@ -398,9 +398,9 @@ class Violation(Exception):
 
     def signature(self):
         r = self.result
-        if r is not None:
-            return "%s|exit=%s|%s|%s" % (self.clause, r.exit_code, r.exc_type, r.frame)
-        return "%s|||" % self.clause
+        if r is not None and r.exc is not None:
+            return "%s|%s|%s" % (self.clause, r.exc_type, r.frame)
+        return "%s||" % self.clause
 
 
 def require(cond, clause, detail, result=None):
